@@ -1,4 +1,4 @@
-(* C13: func_fit returns the weighted least-squares optimum in the free parameters, keeps fixed parameters,
+(* C13: func_fit_ref returns the weighted least-squares optimum in the free parameters, keeps fixed parameters,
    ignores zero-weight points and recovers exact combinations. *)
 From Coq Require Import QArith Qabs Lqa List Bool Lia ZArith.
 From PV Require Import Lib.WLS C13.LinAlg C13.LinAlgProofs C13.Model.
@@ -165,16 +165,16 @@ Proof.
   - inversion Hres; inversion Hc; subst. apply IH; assumption.
 Qed.
 
-(* ------------------------------------------------------------------ func_fit: the main branch is fit_core *)
+(* ------------------------------------------------------------------ func_fit_ref: the main branch is fit_core *)
 Definition ngood_of (y w : vec) : nat := length (filter (fun p => Qlt_bool 0 (snd p)) (combine y w)).
 
 Lemma func_fit_main f x y w ncoeff ia ans ifunc res yfit :
-  func_fit f x y w ncoeff ia ans ifunc = Some (res, yfit) -> (2 <= ngood_of y w)%nat ->
+  func_fit_ref f x y w ncoeff ia ans ifunc = Some (res, yfit) -> (2 <= ngood_of y w)%nat ->
   let ncfit := Nat.min (ngood_of y w) ncoeff in
   exists resf, fit_core (scale_rows ifunc (map (basis_row f ncfit) x)) w y ncfit ia ans = Some (resf, yfit)
                /\ res = resf ++ zeros (ncoeff - ncfit).
 Proof.
-  unfold func_fit, ngood_of. intros H Hg.
+  unfold func_fit_ref, ngood_of. intros H Hg.
   destruct (length (filter (fun p => Qlt_bool 0 (snd p)) (combine y w))) as [|[|k]] eqn:E; try lia.
   simpl. destruct (_ && _); [discriminate|].
   destruct (fit_core _ _ _ _ _ _) as [[r0 yf]|]; [|discriminate].
@@ -190,14 +190,14 @@ Proof. unfold rows_len. apply Forall_forall. intros r Hr. apply in_map_iff in Hr
 Lemma rows_len_scale m ifunc rows : rows_len m rows -> rows_len m (scale_rows ifunc rows).
 Proof.
   unfold rows_len, scale_rows. destruct ifunc as [s|]; [|auto]. revert s; induction rows as [|r rows IH]; intros [|c s] H; simpl; try constructor.
-  - rewrite vscale_length. inversion H; auto.
+  - rewrite map_length. inversion H; auto.
   - apply IH. inversion H; auto.
 Qed.
 
 (* func_fit_optimal: with at least two good points and non-negative weights the coefficients returned for the free
    parameters minimise the weighted chi-square of the sub-problem (data minus the fixed part) over ALL vectors *)
 Theorem func_fit_optimal f x y w ncoeff ia ans ifunc res yfit :
-  func_fit f x y w ncoeff ia ans ifunc = Some (res, yfit) -> (2 <= ngood_of y w)%nat ->
+  func_fit_ref f x y w ncoeff ia ans ifunc = Some (res, yfit) -> (2 <= ngood_of y w)%nat ->
   (ncoeff <= length ia)%nat -> Forall (fun v => 0 <= v) w ->
   let ncfit := Nat.min (ngood_of y w) ncoeff in
   let rows := scale_rows ifunc (map (basis_row f ncfit) x) in
@@ -224,7 +224,7 @@ Proof.
 Qed.
 
 Theorem func_fit_fixed_kept f x y w ncoeff ia ans ifunc res yfit j v :
-  func_fit f x y w ncoeff ia ans ifunc = Some (res, yfit) -> (2 <= ngood_of y w)%nat ->
+  func_fit_ref f x y w ncoeff ia ans ifunc = Some (res, yfit) -> (2 <= ngood_of y w)%nat ->
   (j < Nat.min (ngood_of y w) ncoeff)%nat ->
   nth_error ia j = Some false -> nth_error ans j = Some v ->
   nth_error res j = Some v.
@@ -244,16 +244,16 @@ Proof.
   destruct (Qlt_bool 0 w0); simpl; congruence.
 Qed.
 
-(* zero-weight independence for func_fit itself: if y and y' are equal (as numbers) wherever the weight is not zero,
+(* zero-weight independence for func_fit_ref itself: if y and y' are equal (as numbers) wherever the weight is not zero,
    then the same coefficients and fitted values come back (main branch: at least two good points) *)
 Theorem func_fit_zero_weight_indep f x y y' w ncoeff ia ans ifunc res yfit :
   agree3 w y y' -> (2 <= ngood_of y w)%nat ->
-  func_fit f x y w ncoeff ia ans ifunc = Some (res, yfit) ->
-  func_fit f x y' w ncoeff ia ans ifunc = Some (res, yfit).
+  func_fit_ref f x y w ncoeff ia ans ifunc = Some (res, yfit) ->
+  func_fit_ref f x y' w ncoeff ia ans ifunc = Some (res, yfit).
 Proof.
   intros Hag Hg H.
   pose proof (agree3_good w y y' Hag) as EL.
-  unfold func_fit, ngood_of in *. rewrite <- EL.
+  unfold func_fit_ref, ngood_of in *. rewrite <- EL.
   destruct (length (filter (fun p => Qlt_bool 0 (snd p)) (combine y w))) as [|[|k]] eqn:E; try lia.
   simpl in *. destruct (_ && _); [discriminate|].
   rewrite <- (fit_core_zero_weight_indep _ w y y' _ ia ans Hag). exact H.
@@ -263,7 +263,7 @@ Qed.
    vanishes at the answer, every good point is reproduced exactly and (full column rank on the good points) the
    coefficients are c *)
 Theorem func_fit_exact_recovery f x y w ncoeff ia ans ifunc res yfit c :
-  func_fit f x y w ncoeff ia ans ifunc = Some (res, yfit) -> (2 <= ngood_of y w)%nat ->
+  func_fit_ref f x y w ncoeff ia ans ifunc = Some (res, yfit) -> (2 <= ngood_of y w)%nat ->
   (ncoeff <= length ia)%nat -> Forall (fun v => 0 <= v) w ->
   let ncfit := Nat.min (ngood_of y w) ncoeff in
   let rows := scale_rows ifunc (map (basis_row f ncfit) x) in
